@@ -70,7 +70,9 @@ CLAIMS["C06"] = dict(
     text=("Decides the lexical contract that any round trip needs: every token detect_alignment_format / read_msf / "
           "read_fasta search for is a substring of a literal the writer of the same format emits, no detection token of "
           "one format is emitted by another format's writer, the pointer skip after 'Name:' equals the token length; every "
-          "store/copy into msa_seq.name is bounded by its buffer; no reader identifies a sequence by a prefix comparison."),
+          "store/copy into msa_seq.name is bounded by its buffer; no reader identifies a sequence by a prefix comparison; the "
+          "writers emit exactly the columns [0, alnlen) of every row, for the loop shapes the rule can decide (counted "
+          "per-column loop; cursor-controlled block loop) - any other shape is reported as 'no verdict' (exit 2)."),
     note=("One clause family only: equality of the re-read alignment (block arithmetic at multiples of 60, name "
           "extraction over all names) is NOT decided - it needs the loop semantics over run-time widths."),
     technique="reader/writer token-set agreement from string literals, bounded-copy rule, prefix-comparison rule",
@@ -81,9 +83,10 @@ CLAIMS["C15"] = dict(
           "'Len:' resolves (reaching definitions) to the same source as the bound that ends row emission; every GCG "
           "checksum is taken over that span of the row whose name is printed alongside, the overall check sums all numseq "
           "rows; banner and Type: choices, evaluated in the two (biotype, L) states kalign_run can leave behind, label "
-          "protein as protein and nucleotide as nucleic."),
-    note=("Header clauses only: wrapping at 60, presence of every sequence in every block and the checksum arithmetic "
-          "itself (overflow at extreme widths) are NOT decided."),
+          "protein as protein and nucleotide as nucleic; the checksum accumulators are reduced in every iteration (no 32-bit "
+          "overflow for long rows); row emission covers exactly [0, alnlen) for the recognised loop shapes (else: no verdict)."),
+    note=("Wrapping at 60, presence of every sequence in every block and the numerical GCG formula are NOT decided; a "
+          "restructured emission loop yields exit 2 (no verdict), not a pass."),
     technique="reaching-definition agreement between header fields and emission bound; two-state evaluation of the type predicate",
     design_ref="DESIGN.md section 3, C15 (R15a-R15c)")
 
